@@ -72,7 +72,9 @@ def r1_r2(ctx, rep):
     rep.check(ok, "replace:Sort", "a Sort must replace the current sorting (and be re-emitted later where needed)", file=f["file"], line=s["l"] if s else f["l"], fn=f["path"])
     # Join: clear only under sorting_from_distinct_on
     j = rows.get("Join")
-    ok = j is not None and not clears_uncond(j) and any(n.get("k") == "if" and show(n["c"]) == "sorting_from_distinct_on" and "sorting.clear()" in show_stmts(n["t"]) for n in walk(j["body"]))
+    import guards as _g
+    ok = j is not None and not clears_uncond(j) and any("sorting.clear()" in show_stmts(b) for b in _g.branches_when(j["body"], "sorting_from_distinct_on", True)) \
+        and not any("sorting.clear()" in show_stmts(b) for b in _g.branches_when(j["body"], "sorting_from_distinct_on", False))
     rep.check(ok, "retain:Join", "a join keeps the left input's order; only an order that exists for DISTINCT ON row selection is dropped", file=f["file"], line=j["l"] if j else f["l"], fn=f["path"])
     # From inherits the referenced CTE's sorting
     fr = rows.get("From")
